@@ -1,3 +1,4 @@
+import collections
 from inspect import signature
 
 from .. import DataStreamProcessor
@@ -13,7 +14,10 @@ class finalizer(DataStreamProcessor):
         base_func = super().get_iterator(datastream)
 
         def func():
-            yield from base_func()
+            for resource in base_func():
+                yield resource
+                # the last row has passed only once rows a later step did not ask for have passed, too
+                collections.deque(resource, maxlen=0)
             if 'stats' in signature(self.callback).parameters:
                 stats = datastream.merge_stats()
                 self.callback(stats=stats)
